@@ -132,19 +132,19 @@ impl Check for C19 {
         "exploration"
     }
     fn rule(&self) -> String {
-        "EXHAUSTIVE enumeration of 27 property kinds x {publish, will, subscribe, unsubscribe, disconnect} x value variants (legal, boundary, illegal) x session states {idle, in-flight work with withheld acks, dead handle, send window used up, all eight in-flight slots used} against a reference table written from the MQTT 5.0 text (Accept / Reject / DontCare): Reject => documented error (InvalidRequest also when the request could not have been admitted anyway) and no trace (no byte of the request written, snapshot incl. the identifier counter, handle statuses, quiescence and can_publish unchanged); Accept => the request succeeds with ample buffers and the property is decoded from the wire with the same value; plus empty SUBSCRIBE/UNSUBSCRIBE lists, and Maximum QoS {absent,0,1} x requested {0,1,2} x auto-downgrade {on,off}: no PUBLISH above the maximum on the wire, returned handle kind (none / completed by PUBACK / completed by PUBCOMP) matches the QoS sent. Every cell is a distinct non-trivial case.".into()
+        "EXHAUSTIVE enumeration of 27 property kinds x {publish, will, subscribe, unsubscribe, disconnect} x value variants (legal, boundary, illegal) x session states {idle, in-flight work with withheld acks, dead handle, send window used up, all eight in-flight slots used} against a reference table written from the MQTT 5.0 text (Accept / Reject / DontCare): Reject => documented error (InvalidRequest also when the request could not have been admitted anyway) and no trace (no byte of the request written, snapshot incl. the identifier counter, handle statuses, quiescence and can_publish unchanged); Accept => the request succeeds with ample buffers and the property is decoded from the wire with the same value; plus empty SUBSCRIBE/UNSUBSCRIBE lists, and Maximum QoS {absent,0,1} x requested {0,1,2} x auto-downgrade {on,off} x {idle, in-flight work, dead handle, resumed reconnect after a different Maximum QoS, fresh reconnect after a different Maximum QoS}: no PUBLISH above the maximum on the wire, returned handle kind (none / completed by PUBACK / completed by PUBCOMP) matches the QoS sent. Every cell is a distinct non-trivial case.".into()
     }
     fn assumptions(&self) -> Vec<String> {
         vec!["the reference table (requests.rs::verdict, DESIGN.md appendix A) is a correct reading of MQTT 5.0".into(), "string content rules (wildcards in a response topic, U+0000) are invalid user input and not generated".into()]
     }
     fn workloads(&self) -> Vec<Workload> {
-        vec![Workload { name: "property-cells", quick: 27 * 5 * 5, thorough: 27 * 5 * 5 }, Workload { name: "qos-cap-cells", quick: 3 * 3 * 2 * 3, thorough: 3 * 3 * 2 * 3 }, Workload { name: "empty-lists", quick: 6, thorough: 6 }]
+        vec![Workload { name: "property-cells", quick: 27 * 5 * 5, thorough: 27 * 5 * 5 }, Workload { name: "qos-cap-cells", quick: 5 * 3 * 2 * 3, thorough: 5 * 3 * 2 * 3 }, Workload { name: "empty-lists", quick: 6, thorough: 6 }]
     }
     fn min_nontrivial(&self, _tier: Tier) -> usize {
         400
     }
     fn required_counters(&self) -> Vec<&'static str> {
-        vec!["cells_accept", "cells_reject", "no_trace_comparisons", "downgrade_cells", "dead_handle_cells", "blocked_state_cells"]
+        vec!["cells_accept", "cells_reject", "no_trace_comparisons", "downgrade_cells", "dead_handle_cells", "blocked_state_cells", "qos_cap_cells_after_reconnect"]
     }
     fn exhaustive(&self) -> bool {
         true
@@ -308,10 +308,12 @@ impl Check for C19 {
             }
             1 => {
                 // Maximum QoS x requested QoS x downgrade x session state
-                let state = (index % 3) as u8;
-                let req = ((index / 3) % 3) as u8;
-                let down = (index / 9) % 2 == 1;
-                let maxq: Option<u8> = match (index / 18) % 3 {
+                // states: 0 idle, 1 in-flight work, 2 dead handle, 3 resumed / 4 fresh reconnect after a
+                // connection whose CONNACK carried a different Maximum QoS
+                let state = (index % 5) as u8;
+                let req = ((index / 5) % 3) as u8;
+                let down = (index / 15) % 2 == 1;
+                let maxq: Option<u8> = match (index / 30) % 3 {
                     0 => None,
                     1 => Some(0),
                     _ => Some(1),
@@ -323,7 +325,20 @@ impl Check for C19 {
                 if let Some(m) = maxq {
                     props.push(Prop::MaximumQoS(m));
                 }
-                let mut steps = vec![connect_with(SpMode::Force(false), AckMode::Immediate, props)];
+                let mut steps = vec![];
+                if state >= 3 {
+                    let prior = match maxq {
+                        None => vec![Prop::MaximumQoS(0)],
+                        Some(0) => vec![],
+                        Some(_) => vec![Prop::MaximumQoS(0)],
+                    };
+                    steps.push(connect_with(SpMode::Force(false), AckMode::Immediate, prior));
+                    steps.push(Step::DropConn);
+                    steps.push(connect_with(SpMode::Force(state == 3), AckMode::Immediate, props));
+                    out.count("qos_cap_cells_after_reconnect", 1);
+                } else {
+                    steps.push(connect_with(SpMode::Force(false), AckMode::Immediate, props));
+                }
                 if state == 1 {
                     steps.push(Step::Broker(BrokerAct::Policy(BrokerPolicy { acks: AckMode::Hold, ping: AckMode::Immediate, fail_pct: 0, longform_pct: 0 })));
                     inflight_ctx(&mut steps);
@@ -351,7 +366,7 @@ impl Check for C19 {
                         (true, Some(m)) => req.min(m),
                         _ => req,
                     };
-                    let c = &t.w.conns[0];
+                    let c = t.w.conns.last().unwrap();
                     let sent: Vec<u8> = c.out.packets.iter().filter_map(|k| match &k.pkt {
                         CPacket::Publish { topic, qos, .. } if topic == "cap" => Some(*qos),
                         _ => None,
